@@ -57,7 +57,7 @@ CHECKS["C12"] = dict(
 
 CHECKS["C13"] = dict(
     technique="static analysis: symbolic (linear normal form) check of the scanner's cursor invariant on every block that writes the offset, keyword/field agreement of the token stamp, inclusive-end convention lint at every consumer",
-    text="The tokenizer keeps _char/_peek/_end/_col consistent with _current by hand in three places (_advance, its alnum batch, the str.find string fast path); each block that writes _current must re-establish the three equalities with symbolically equal expressions and move the column in lockstep, so an off-by-one in a fast path is caught without running it. The string fast path must count exactly the line breaks _advance counts (count-term vector incl. CR LF pairing) and restart the column after the last of them. Token stamps, every slice/adjacency/highlight consumer of the inclusive end, TokenError's own slice and same-token error reporting are shape-checked. Tiling of the input by tokens is not decided. The window slice feeding the lookahead clamps its lower bound; the i>1 branch of _advance counts the line breaks it skips; self._prev/_curr is never read as an argument after a sibling argument moved the cursor; a variable-length rewind restores _line/_col; after a nested _scan the enclosing method re-assigns _start before emitting its own token. On every path through the scanner's methods _start is re-assigned between two token emissions, so no two tokens are stamped with overlapping spans. A function that hands tokens to a parser entry point hands the source text on with them.",
+    text="The tokenizer keeps _char/_peek/_end/_col consistent with _current by hand in three places (_advance, its alnum batch, the str.find string fast path); each block that writes _current must re-establish the three equalities with symbolically equal expressions and move the column in lockstep, so an off-by-one in a fast path is caught without running it. The string fast path must count exactly the line breaks _advance counts (count-term vector incl. CR LF pairing) and restart the column after the last of them. Token stamps, every slice/adjacency/highlight consumer of the inclusive end, TokenError's own slice and same-token error reporting are shape-checked. Tiling of the input by tokens is not decided. The window slice feeding the lookahead clamps its lower bound; the i>1 branch of _advance counts the line breaks it skips; self._prev/_curr is never read as an argument after a sibling argument moved the cursor; a variable-length rewind restores _line/_col; after a nested _scan the enclosing method re-assigns _start before emitting its own token. On every path through the scanner's methods _start is re-assigned between two token emissions, so no two tokens are stamped with overlapping spans. A function that hands tokens to a parser entry point hands the source text on with them. A name merged from several tokens records the span of all of them.",
     ref="DESIGN.md section 4 / C13",
 )
 
@@ -86,7 +86,7 @@ CHECKS["C01"] = dict(
 
 CHECKS["C05"] = dict(
     technique="static analysis: loop-progress dataflow with interprocedural 'productive' summaries (greatest fixpoint over all parser classes) on a hand-built CFG; provenance/consumption analysis of cursor moves; must-dataflow dominance for table lookups; raise-family lint, length-bound and token-existence dataflows, typed definite-assignment lint",
-    text="Every while loop of the recursive-descent parser (all 34 parser classes) and of the tokenizer must reach each back edge having consumed a token (consuming-match conditions, unconditional advances, peek-then-parse, explicit progress checks, productive callees derived by a fixpoint) or be a recognised non-cursor loop; every backward cursor move must target a saved index or be covered by consumption/dispatch credit; every class-table lookup must be dominated by a successful match on the same table; the generator's fall-through and every explicit raise must stay inside the library's error family; constant indexing of function-builder argument lists and of every list-typed local/attribute of the parser, tokenizer and JSON-path parser needs a dominating length fact (length-bound dataflow, one-level caller facts for list parameters); every forward _advance needs evidence that the token it steps over exists; callees that un-read their caller's match are charged back to the caller's loop; locals are definitely assigned (mypy possibly-undefined); cursor-relative subscripts of the token list carry a bound test; no generator handler renders the same child twice in one execution (2^depth work); the scanner runs only under the TokenError wrapper. This found and led to fixes for five parser hangs, a cursor restored one token too far and seven IndexError/UnboundLocalError leaks. None-dereferences, work bounds and recursion depth are not decided. _advance_chunk advances are bounded by the chunk, and enum lookups by computed name are guarded. Table-dispatched callables called with keywords run under a TypeError conversion or every entry accepts the keyword; to_py() conversions of parsed nodes are guarded and assert_is is not applied to them; stepped walks over argument lists stay inside the list.",
+    text="Every while loop of the recursive-descent parser (all 34 parser classes) and of the tokenizer must reach each back edge having consumed a token (consuming-match conditions, unconditional advances, peek-then-parse, explicit progress checks, productive callees derived by a fixpoint) or be a recognised non-cursor loop; every backward cursor move must target a saved index or be covered by consumption/dispatch credit; every class-table lookup must be dominated by a successful match on the same table; the generator's fall-through and every explicit raise must stay inside the library's error family; constant indexing of function-builder argument lists and of every list-typed local/attribute of the parser, tokenizer and JSON-path parser needs a dominating length fact (length-bound dataflow, one-level caller facts for list parameters); every forward _advance needs evidence that the token it steps over exists; callees that un-read their caller's match are charged back to the caller's loop; locals are definitely assigned (mypy possibly-undefined); cursor-relative subscripts of the token list carry a bound test; no generator handler renders the same child twice in one execution (2^depth work); the scanner runs only under the TokenError wrapper. This found and led to fixes for five parser hangs, a cursor restored one token too far and seven IndexError/UnboundLocalError leaks. None-dereferences, work bounds and recursion depth are not decided. _advance_chunk advances are bounded by the chunk, and enum lookups by computed name are guarded. Table-dispatched callables called with keywords run under a TypeError conversion or every entry accepts the keyword; to_py() conversions of parsed nodes are guarded and assert_is is not applied to them; stepped walks over argument lists stay inside the list. A value that was just reported missing through a non-raising raise_error is not used unguarded afterwards.",
     ref="DESIGN.md section 4 / C05",
 )
 
